@@ -21,14 +21,21 @@ from pydoctor import model
 D = T.DIMS
 
 
-def check_reexport(kw, order, accel=False, via=False):
+def check_reexport(kw, order, accel=False, via=False, hide_impl=False):
     via = via and kw["reexp"] in ("pkg_plain", "pkg_star", "pkg_renamed")
     sources, exporter, newname = T.gen(accel=accel, via=via, **kw)
     if exporter is None:
         return True
     sample(shape=kw, order=order, sources={k: v[0] for k, v in sources.items()})
+    opts = None
+    if hide_impl:
+        # the usual way to keep an implementation module out of the documentation while publishing its content through __all__
+        import copy as _copy
+        from pydoctor import model as _model
+        opts = _copy.copy(PJ.OPTS)
+        opts.privacy = [(_model.PrivacyClass.HIDDEN, "pkg._impl")]
     try:
-        s = PJ.build(sources, schedule=T.scheduler(order))
+        s = PJ.build(sources, opts=opts, schedule=T.scheduler(order))
     except Exception as e:
         note(why="analysis raised", shape=kw, order=order, exc=repr(e))
         return False
@@ -40,7 +47,7 @@ def check_reexport(kw, order, accel=False, via=False):
     if not imported:
         return True
     new, old = f"{exporter}.{newname}", "pkg._impl.X"
-    ctx = dict(shape=kw, order=order, accelerator_import_in_defining_module=accel, through_an_intermediate_module=via)
+    ctx = dict(shape=kw, order=order, accelerator_import_in_defining_module=accel, through_an_intermediate_module=via, defining_module_hidden=hide_impl)
     if not moved:
         if old not in s.allobjects:
             note(why="object listed in its defining module's __all__ was moved away", **ctx)
@@ -123,11 +130,11 @@ NSCHED = 6      # <= 3 sub-modules -> <= 6 schedules
     parts=_parts, timeout=(240, 1800), cls="E", tracing="concrete-after-choice", twin="first",
     code=["pydoctor.astbuilder.ModuleVistor._handleReExport/_getCurrentModuleExports/_importNames/_importAll", "pydoctor.astbuilder.parseAll", "pydoctor.model.Documentable.reparent",
           "pydoctor.model.System.find_object", "pydoctor.model.Documentable.expandName/resolveName", "pydoctor.model.System.process (every schedule)"],
-    bounds={"quick": "re-export form (package plain / renamed / star - each also through an intermediate facade module that imported the name -, sibling plain) x consumer form (none, from defining module, from exporter, both, module alias) x local definition (none/before/after) x kind x nested x origin __all__ (absent / without X / with X) x the defining module also importing the name (try: from _speedups import X) or not x every reachable schedule (<= 6)",
+    bounds={"quick": "re-export form (package plain / renamed / star - each also through an intermediate facade module that imported the name -, sibling plain) x consumer form (none, from defining module, from exporter, both, module alias) x local definition (none/before/after) x kind x nested x origin __all__ (absent / without X / with X) x the defining module also importing the name (try: from _speedups import X) or not x the defining module hidden by a --privacy rule or not x every reachable schedule (<= 6)",
             "thorough": "same"},
     outside="two re-exporters of one object, cyclic shapes, duplicate definitions (C02)",
 )
-def h_reexport(xkind: int, nested: bool, origin_all: int, si: int, accel: bool, via: bool) -> bool:
+def h_reexport(xkind: int, nested: bool, origin_all: int, si: int, accel: bool, via: bool, hide: bool) -> bool:
     """
     pre: 0 <= xkind <= 1 and 0 <= origin_all <= 2 and 0 <= si < NSCHED
     post: _
@@ -137,11 +144,12 @@ def h_reexport(xkind: int, nested: bool, origin_all: int, si: int, accel: bool, 
               origin_all=D["origin_all"][pick(origin_all, 0, 2)], local_def=D["local_def"][li], consumer=D["consumer"][ci], cycle=False)
     si = pick(si, 0, NSCHED - 1)
     accel = pickb(accel)
+    hide = pickb(hide) and not accel      # (kept apart from the accelerator variant to bound the product)
     via = pickb(via) and kw["reexp"] in ("pkg_plain", "pkg_star", "pkg_renamed")
     with NoTracing():
         sources, _e, _n = T.gen(via=via, **kw)
         scheds = T.schedules(sources)
         if si >= len(scheds):
             return True
-        ok = check_reexport(kw, scheds[si], accel, via)
+        ok = check_reexport(kw, scheds[si], accel, via, hide)
     return done(ok)
